@@ -61,6 +61,9 @@ func (c *ownCtx) cancel() {
 }
 
 // execError is what some executors return as their own error (together with a value): it must arrive unchanged
+var errParentCause = fmt.Errorf("cause given when the pool's parent context was cancelled")
+var errTaskCause = fmt.Errorf("cause given when a task's own context was cancelled")
+
 type execError struct{ id int }
 
 func (e *execError) Error() string { return fmt.Sprintf("executor error of task %d", e.id) }
@@ -265,7 +268,8 @@ func (r *runState) submitTask(kind, ctxKind string, reuse *taskRec) {
 			oc := newOwnCtx(id)
 			tr.ctx, tr.cancel, tr.own = oc, oc.cancel, oc
 		} else {
-			tr.ctx, tr.cancel = context.WithCancel(context.Background())
+			c, cc := context.WithCancelCause(context.Background())
+			tr.ctx, tr.cancel = c, func() { cc(errTaskCause) }
 		}
 	case "never":
 		tr.ctx = context.Background()
@@ -348,7 +352,9 @@ func (r *runState) submitTask(kind, ctxKind string, reuse *taskRec) {
 
 func (r *runState) runScenario() {
 	sc := r.sc
-	parent, pcancel := context.WithCancel(context.WithValue(context.Background(), parentKey{}, "parent-of-this-pool"))
+	// (contexts with a cancellation CAUSE: a refused task's result carries the context's error, ctx.Err(), not context.Cause(ctx))
+	parent, pcancelCause := context.WithCancelCause(context.WithValue(context.Background(), parentKey{}, "parent-of-this-pool"))
+	pcancel := func() { pcancelCause(errParentCause) }
 	r.pcancel = pcancel
 	fmt.Fprintf(r.tr, "reset pool %d %d %d\n", sc.nworker, sc.limit, sc.lifetime)
 	lifetime := time.Duration(sc.lifetime) * unit
@@ -507,6 +513,9 @@ func (r *runState) runScenario() {
 		case res := <-t.task.Result():
 			if res.Err != nil && res.Err != t.execErr {
 				kind = "err"
+				if res.Err == errParentCause || res.Err == errTaskCause {
+					r.fail("C04 task %d: the result of a refused task carries the cancellation cause %q instead of the done context's error (ctx.Err() = %q)", t.id, res.Err.Error(), context.Canceled.Error())
+				}
 				// the result of a refused task carries the error of the context that was done: its own or the pool's
 				if t.own != nil && t.resStep >= 0 { // (a result delivered only by the epilogue's Stop is not judged)
 					poolDone := r.poolDoneStep >= 0 && r.poolDoneStep <= t.resStep
